@@ -85,7 +85,38 @@ def c_guards(ctx, args):
     return None
 
 
-CHECKS = {'table_corr': c_table_corr, 'action': c_action, 'C_group': c_C_group, 'guards': c_guards}
+def c_C_roundtrip(ctx, args):
+    """every C(k), at every placement, as gate / circuit / compiled circuit: backward undoes forward and forward undoes backward (all one-site and mixed operands),
+    and the gate's backward action is the model's (the inverse table)"""
+    k, q, N, mode = args
+    spec = [[q], [2, 100 + k]]
+    l = [[r[0], 0] for r in gen.identity_rows(N)] + [[[1] * (2 * N), 1], [[1, 0] * N, 3]]
+    I = impl('np').OPS
+    if mode == 'gate':
+        f = I['gate_forward'](N, spec, l)
+        fb = I['gate_backward'](N, spec, f)
+        b = I['gate_backward'](N, spec, l)
+        bf = I['gate_forward'](N, spec, b)
+        r = corr(ctx, 'np', 'gate_backward', [N, spec, l])
+        if r:
+            return r
+    else:
+        import vlib.impl_np as NP
+        def run(direction, rows):
+            c = NP.build_circuit(N, [[0, spec]], 'CliffordCircuit')
+            if mode == 'compiled':
+                c.compile()
+            o = NP.PL(rows)
+            (c.forward if direction == 'f' else c.backward)(o)
+            return NP.oPL(o)
+        f = run('f', l); fb = run('b', f); b = run('b', l); bf = run('f', b)
+    if fb != l or bf != l:
+        return {'kind': 'oracle', 'where': 'np:C(%d) on qubit %d of %d (%s): backward and forward are not inverse to each other' % (k, q, N, mode),
+                'observed': [fb, bf], 'expected': l, 'tags': ['C_backward']}
+    return None
+
+
+CHECKS = {'C_roundtrip': c_C_roundtrip, 'table_corr': c_table_corr, 'action': c_action, 'C_group': c_C_group, 'guards': c_guards}
 
 
 def run(ctx):
@@ -102,6 +133,10 @@ def run(ctx):
                 do(ctx, 'action', [nm, [q], N], nontrivial=('a', nm, q, N))
         for c, t in itertools.permutations(range(N), 2):
             do(ctx, 'action', [5, [c, t], N], nontrivial=('a', 5, c, t, N), sample=(N == 3 and c > t))
+    for k in range(24):
+        for N, q in ((1, 0), (2, 1), (3, 1)):
+            for mode in ('gate', 'circuit', 'compiled'):
+                do(ctx, 'C_roundtrip', [k, q, N, mode], nontrivial=('Cr', k, N, mode))
     ctx.res.exhaustive = True
     do(ctx, 'C_group', [], nontrivial='C_group')
     for nm, qs in [(0, []), (0, [0, 1]), (1, [0, 1]), (4, [1, 2, 3]), (5, [0]), (5, [0, 1, 2]), (124, [0]), (130, [0]), (99, [0]), (100, [0, 1]), (111, [])]:
